@@ -1044,7 +1044,9 @@ structure ServerInv (s : NetcodeServer) : Prop where
   /-- the association list is a map -/
   pendKeys : (s.pendingClients.map (·.1)).Nodup
   pendLen : s.pendingClients.length ≤ C.NETCODE_MAX_PENDING_CLIENTS
-  entriesLen : s.connectTokenEntries.length = C.NETCODE_TOKEN_ENTRIES
+  /-- the token-entry table is not empty (`NetcodeServer::new` makes it `NETCODE_TOKEN_ENTRIES` long and no operation
+      changes its length: `TableLen`, `step_tableLen`) -/
+  entriesPos : 0 < s.connectTokenEntries.length
   entries : EntriesOK s.connectTokenEntries
   /-- `set_max_clients` may grow the slot list, it never shrinks it -/
   maxLe : s.maxClients ≤ s.clients.length
@@ -1234,7 +1236,7 @@ theorem ServerInv.setEntry {s : NetcodeServer} (h : ServerInv s) (k : Nat) {ne :
     ServerInv { s with connectTokenEntries := s.connectTokenEntries.set k (some ne) } := by
   obtain ⟨h1, h2, h3, h4, h5, h6, h7, h8, h9⟩ := h
   refine ⟨h1, h2, h3, h4, h5, ?_, h7.set k hn, h8, h9⟩
-  show (s.connectTokenEntries.set k (some ne)).length = _
+  show 0 < (s.connectTokenEntries.set k (some ne)).length
   rw [List.length_set]; exact h6
 
 /-- the half-open session of `ad` becomes connected in slot `i` -/
@@ -1310,26 +1312,46 @@ theorem durAdd_ok {ε} {x y : Nat} (site : String) (h : x + y ≤ DURATION_MAX) 
 theorem durAdd_eq_ok {ε} {x y z : Nat} {site : String} (h : (durAdd x y site : Res ε Nat) = .ok z) : z = x + y := by
   unfold durAdd at h; split at h <;> cases h; rfl
 
-/-- `NetcodeServer::new` establishes the invariant (and as many slots as the limit) -/
+/-- a server without sessions: every slot free (as many slots as the limit), nothing half-open, an empty token-entry
+    table — the state `NetcodeServer::new` returns -/
+structure EmptyServer (s : NetcodeServer) : Prop where
+  clients : s.clients = List.replicate s.maxClients none
+  max : s.maxClients ≤ C.NETCODE_MAX_CLIENTS
+  pending : s.pendingClients = []
+  entries : ∃ k, 0 < k ∧ s.connectTokenEntries = List.replicate k none
+
+theorem EmptyServer.inv {s : NetcodeServer} (h : EmptyServer s) : ServerInv s := by
+  obtain ⟨h1, h2, h3, k, hk, h4⟩ := h
+  refine ⟨?_, ?_, ?_, ?_, ?_, ?_, ?_, ?_, ?_⟩
+  · rw [h1]; exact SlotsOK.replicate _
+  · intro i c hc
+    rw [h1] at hc
+    exact absurd hc (by unfold At; rw [List.getElem?_replicate]; split <;> simp)
+  · intro p hp; rw [h3] at hp; cases hp
+  · rw [h3]; exact List.nodup_nil
+  · rw [h3]; exact Nat.zero_le _
+  · rw [h4, List.length_replicate]; exact hk
+  · rw [h4]; exact EntriesOK.replicate _
+  · rw [h1, List.length_replicate]; exact Nat.le_refl _
+  · rw [h1, List.length_replicate]; exact h2
+
+/-- the token-entry table has the length `NetcodeServer::new` gives it -/
+def TableLen (s : NetcodeServer) : Prop := s.connectTokenEntries.length = C.NETCODE_TOKEN_ENTRIES
+
+/-- `NetcodeServer::new` returns an empty server (hence establishes the invariant) with as many slots as the limit
+    and a token-entry table of `NETCODE_TOKEN_ENTRIES` entries -/
 theorem new_inv {t m pid : Nat} {pa : List Addr} {sec : Bool} {k ck : Bytes} {s : NetcodeServer}
     (h : NetcodeServer.new t m pid pa sec k ck = .ok s) :
-    ServerInv s ∧ s.clients = List.replicate m none ∧ s.maxClients = m ∧ s.pendingClients = [] ∧ s.currentTime = t := by
+    ServerInv s ∧ s.clients = List.replicate m none ∧ s.maxClients = m ∧ s.pendingClients = [] ∧ s.currentTime = t ∧
+    EmptyServer s ∧ TableLen s := by
   unfold NetcodeServer.new at h
   split at h
   · cases h
   · rename_i hm
     cases h
-    refine ⟨⟨SlotsOK.replicate m, ?_, ?_, ?_, ?_, ?_, EntriesOK.replicate _, ?_, ?_⟩, rfl, rfl, rfl, rfl⟩
-    · intro i c hc
-      exact absurd hc (by unfold At; rw [List.getElem?_replicate]; split <;> simp)
-    · intro p hp; cases hp
-    · exact List.nodup_nil
-    · exact Nat.zero_le _
-    · exact List.length_replicate
-    · show m ≤ (List.replicate m none).length
-      rw [List.length_replicate]; exact Nat.le_refl _
-    · show (List.replicate m none).length ≤ _
-      rw [List.length_replicate]; omega
+    refine ⟨?_, rfl, rfl, rfl, rfl, ?_, List.length_replicate⟩
+    · exact EmptyServer.inv ⟨rfl, Nat.le_of_not_lt hm, rfl, C.NETCODE_TOKEN_ENTRIES, by decide, rfl⟩
+    · exact ⟨rfl, Nat.le_of_not_lt hm, rfl, C.NETCODE_TOKEN_ENTRIES, by decide, rfl⟩
 
 theorem new_ne_panic {t m pid : Nat} {pa : List Addr} {sec : Bool} {k ck : Bytes} (hm : m ≤ C.NETCODE_MAX_CLIENTS) :
     ∃ s, NetcodeServer.new t m pid pa sec k ck = .ok s := by
